@@ -368,21 +368,22 @@ fn check(case: &Case) -> Result<Verdict, String> {
         .iter()
         .filter_map(|o| match ext_of(o) {
             Some(Some(e)) if !LOADABLE.contains(&e.as_str()) => o.file.clone(),
+            // a file without extension is a documented candidate, but it cannot be loaded: like an
+            // unsupported extension, the expected outcome is an error naming the file
+            Some(None) if !case.avoid_no_ext_file => o.file.clone(),
             _ => None,
         })
         .collect();
     let unknown_ext = unknown_exts.first().cloned();
     let mut original: Option<String> = None;
     let mut observe = true;
-    if no_ext {
-        if case.avoid_no_ext_file {
+    if no_ext && case.avoid_no_ext_file {
+        {
             classes.push("avoided:no-ext-file(bundle not observable)".into());
             observe = false;
             if let Some(o) = answer.unique() {
                 original = o.file.clone();
             }
-        } else {
-            classes.push("resolves_to_file_without_extension".into());
         }
     } else if let Some(f) = &unknown_ext {
         // documented: only the listed data extensions can be bundled; an error naming the file
